@@ -40,9 +40,13 @@ PHI = "element.phi*pi/180 if element.deg else element.phi"
 
 
 def run(rep, prog, tier):
+    from .hidden import no_hidden_state
+    rep.rule('R13.state', 'no hidden state in the anchored modules: no function writes a module-level object, no caching decorator / cached property')
+    no_hidden_state(rep, 'R13.state', prog, ['SimpleCircuit/DiagramParser.py', 'SimpleCircuit/DiagramTranslator.py', 'SimpleCircuit/CircuitComponentTranslators.py', 'SimpleCircuit/Elements.py'])
     rep.rule('R13.table', 'every symbol class is a key of circuit_translator_map (or a listed exception); each translator builds the matching component kind with the symbol\'s own quantities, id = element.name')
     rep.rule('R13.reverse', 'ideal-source translators: nodes = (n0, n1) unless is_reverse then (n1, n0), value = X unless is_reverse then -X for one and the same X; source classes store X unless reverse then -X')
     rep.rule('R13.deg', 'phi*pi/180 if element.deg else phi on the sinusoidal / periodic translators')
+    rep.rule('R13.labels', 'automatic node numbers skip every label already in use (loop until free); user labels name the representative of their node')
     rep.rule('R13.round', 'every terminal coordinate read by the parser is rounded by the same function (same digits for x and y); every terminal -> label lookup goes through the equipotential map; plain wires translate to nothing; switch open -> R = inf, closed -> 1e-12')
     rep.assume('NOT DECIDED: wire-closure on actual coordinates, invariance under rotation / translation / rescaling / splitting / insertion order (schemdraw geometry at run time)')
     m = prog.mod(TRM); em = prog.mod(ELM)
@@ -121,6 +125,7 @@ def run(rep, prog, tier):
                 rep.ob('R13.table', f'{cname}:value:{key}', compare_terms(got, base), f'{key} = {got!r:.120}', site, lhs=got, rhs=base)
     classes_reverse(rep, prog)
     rounding(rep, prog)
+    labels_rule(rep, prog)
 
 
 def switch_rule(rep, prog, ev, t, site):
@@ -161,7 +166,9 @@ def classes_reverse(rep, prog):
         rep.ob('R13.reverse', f'class:{cname}', compare_terms(v, sp), f'_{q} = {v!r}', prog.site(em, stores[0]), lhs=v, rhs=sp)
         # property returns the stored attribute
         prop = next((x for x in c.body if isinstance(x, ast.FunctionDef) and x.name == q), None)
-        okp = prop is not None and any(isinstance(r, ast.Return) and ast.unparse(r.value) == f'self._{q}' for r in ast.walk(prop))
+        from ..prog import returned_expr
+        rv = returned_expr(prop) if prop is not None else None
+        okp = rv is not None and ast.unparse(rv) == f'self._{q}'
         rep.ob('R13.reverse', f'class:{cname}:property', okp, f'{q} returns self._{q}', prog.site(em, prop or c))
     if n < 10: rep.error(f'only {n} source symbol classes with a reversal rule found')
 
@@ -200,10 +207,14 @@ def rounding(rep, prog):
     # terminal -> label goes through the equipotential map
     cls = pm.defs.get('SchematicDiagramParser')
     gi = next((x for x in cls.body if isinstance(x, ast.FunctionDef) and x.name == '_get_node_index'), None) if isinstance(cls, ast.ClassDef) else None
-    okl = gi is not None and ast.unparse(gi.body[-1]).replace(' ', '') == 'returnself.node_label_mapping[self.unique_node_mapping[node]]'
+    from ..prog import returned_expr
+    rgi = returned_expr(gi) if gi is not None else None
+    argn = gi.args.args[1].arg if gi is not None and len(gi.args.args) > 1 else 'node'
+    okl = rgi is not None and ast.unparse(rgi).replace(' ', '') == f'self.node_label_mapping[self.unique_node_mapping[{argn}]]'
     rep.ob('R13.round', '_get_node_index', okl, 'label = node_label_mapping[unique_node_mapping[node]]', prog.site(pm, gi or cls))
     gl = next((x for x in cls.body if isinstance(x, ast.FunctionDef) and x.name == 'ground_label'), None)
-    okgl = gl is not None and '_get_node_index(self.ground)' in ast.unparse(gl)
+    rgl = returned_expr(gl) if gl is not None else None
+    okgl = rgl is not None and ast.unparse(rgl).replace(' ', '') == 'self._get_node_index(self.ground)'
     rep.ob('R13.round', 'ground_label', okgl, 'ground label looked up through the same map', prog.site(pm, gl or cls))
     tm = prog.mod('SimpleCircuit.DiagramTranslator')
     tc = tm.defs.get('DiagramTranslator')
@@ -236,6 +247,34 @@ def rounding(rep, prog):
                 for a_ in adds: dirs.add((n.test.left.id, a_))
         okc = bool(has_while and pair and len(pair) == 2 and (pair[0], pair[1]) in dirs and (pair[1], pair[0]) in dirs)
     rep.ob('R13.round', 'closure', okc, 'equipotential closure iterates to a fixpoint and follows wires in both directions', prog.site(pm, cl or cls))
+
+
+def labels_rule(rep, prog):
+    """automatic node numbers never collide with user labels: the counter is advanced WHILE its text is a label already in use"""
+    pm = prog.mod(PAR); cls = pm.defs.get('SchematicDiagramParser')
+    fn = next((x for x in cls.body if isinstance(x, ast.FunctionDef) and x.name == 'node_label_mapping'), None) if isinstance(cls, ast.ClassDef) else None
+    if fn is None:
+        rep.ob('R13.labels', 'node_label_mapping', None, 'node_label_mapping not found'); return
+    site = prog.site(pm, fn)
+    # the counter: a name that is str()-converted into a label value
+    counters = set()
+    for n in ast.walk(fn):
+        if isinstance(n, ast.Call) and ast.unparse(n.func) == 'str' and n.args and isinstance(n.args[0], ast.Name): counters.add(n.args[0].id)
+    def is_skip_test(t, cn):
+        return any(isinstance(c_, ast.Compare) and isinstance(c_.ops[0], ast.In) and f'str({cn})' in ast.unparse(c_.left) for c_ in ast.walk(t))
+    def increments(body, cn):
+        return any(isinstance(a, ast.AugAssign) and isinstance(a.op, ast.Add) and ast.unparse(a.target) == cn for b_ in body for a in ast.walk(b_))
+    verdict, why = None, 'no collision-avoiding counter loop recognised'
+    for cn in counters:
+        whiles = [n for n in ast.walk(fn) if isinstance(n, ast.While) and is_skip_test(n.test, cn) and increments(n.body, cn)]
+        ifs = [n for n in ast.walk(fn) if isinstance(n, ast.If) and is_skip_test(n.test, cn) and increments(n.body, cn)]
+        if whiles: verdict, why = True, f'`{ast.unparse(whiles[0].test)}` is re-tested until the number is free'
+        elif ifs: verdict, why = False, f'the number is advanced at most once (`if {ast.unparse(ifs[0].test)}`): two consecutive numeric user labels make an automatic label collide with a user label, shorting two distinct nodes'
+    rep.ob('R13.labels', 'auto-numbers-skip-user-labels', verdict, why, site)
+    # user labels come from the node symbols through the equipotential map
+    src = ast.unparse(fn)
+    oku = 'self.unique_node_mapping[' in src and '.node_id' in src and 'self.node_elements' in src
+    rep.ob('R13.labels', 'user-labels', oku, 'label of a node symbol names the representative of the node it sits on', site)
 
 
 def _fn_of(m, node):
